@@ -49,6 +49,20 @@ def check(res):
                                   {"factory": e["key"], "indices": r["ix"], "arguments": r["args"], "accessor": a, "observed": got,
                                    "documented": want, "full_dump": r["raw"],
                                    "rerun": "echo '%s' | build/<hash>/asan/fsweep_driver" % lines[i]})
+        # the operands that are sequences are read back by walking them: forwards, backwards (prefix and postfix steps) and in strides
+        for a, v in d.items():
+            if a.endswith(".probe"):
+                parts = v.split(":")
+                if any(p.startswith(("DISAGREE", "COUNT", "WALK3-")) for p in parts) or \
+                        (any(p.startswith("WALK2-") for p in parts) and not any(p.startswith("WALK-") for p in parts)):
+                    k = "read-back:walk:" + a[:-6]
+                    if k not in keys and len(keys) < 12:
+                        keys.add(k)
+                        res.violation(k, "%s called with (%s): walking the sequence %s() of the result (backwards with -- and with postfix --, forwards with postfix ++, "
+                                      "in strides through std::advance / reverse iterators) does not visit the members that positional access gives: %s" %
+                                      (e["key"], ", ".join(r["args"]), a[:-6], v),
+                                      {"factory": e["key"], "arguments": r["args"], "sequence": a[:-6], "probe": v,
+                                       "rerun": "echo '%s' | build/<hash>/asan/fsweep_driver" % lines[i]})
         if node is not None:
             for s, want in node.items():
                 slots += 1
